@@ -68,6 +68,10 @@ def app_runs(chk, app):
         try:
             p = subprocess.run(["timeout", "300"] + MPIRUN + [str(n), app] + args, stdout=subprocess.PIPE, stderr=subprocess.STDOUT,
                                text=True, errors="replace", cwd=vlib.BUILD)
+            if p.returncode == 124:
+                # time-out on a loaded machine: only a repeated time-out with five times the budget is reported
+                p = subprocess.run(["timeout", "1500"] + MPIRUN + [str(n), app] + args, stdout=subprocess.PIPE, stderr=subprocess.STDOUT,
+                                   text=True, errors="replace", cwd=vlib.BUILD)
             return job, p.returncode, p.stdout
         except Exception as e:  # noqa
             return job, 99, str(e)
